@@ -30,7 +30,11 @@ HOSTILE = [0xFFFFFFFF, 2 ** 31, 2 ** 20 + 1, 2 ** 20]
 # allowance for allocations made by constructors outside borsh/src/de (collect() into keyed
 # collections and LinkedList, Box::new, Rc::from, Bytes::from) and for the io::Error object
 # of a failing decode; empirical, the observed maxima are reported in the evidence
-K_CONV_BYTES = 4
+# K_CONV_BYTES: a B-tree leaf is allocated for 11 entries however few are inserted (one entry of e bytes ->
+# a request of 11 e + header), a hash table for the next power of two of 8/7 n buckets; 4 was enough only
+# while every catalogue element was small enough for SLACK to absorb the node (BTreeMap<u8, [u8; 5000]>
+# with 2 entries requests 55024 bytes for its leaf)
+K_CONV_BYTES = 12
 K_CONV_UNITS = 48
 SLACK = 1024
 EXPLICIT_EQ_FLOOR = 512      # below this an error object may be the largest request
